@@ -92,8 +92,16 @@ class Sim(object):
                 if key in payload or key.upper() in {k.upper() for k in payload}:
                     continue
                 rows = it['rows']
-                if it['form'] == 'recarray':
-                    payload[key] = Y.build_recarray(dict(t, rows=rows))
+                if it['form'] in ('recarray', 'recarray-reordered'):
+                    ra_ = Y.build_recarray(dict(t, rows=rows))
+                    if it['form'] == 'recarray-reordered' and len(ra_.dtype.names) > 1:
+                        # the same named fields, laid out in reverse order (fields are identified by name, not by position)
+                        names = list(ra_.dtype.names)[::-1]
+                        rb_ = np.zeros(len(ra_), dtype=[(n_, ra_.dtype[n_]) for n_ in names])
+                        for n_ in names:
+                            rb_[n_] = ra_[n_]
+                        ra_ = rb_
+                    payload[key] = ra_
                 else:
                     payload[key] = {c['name']: [self.pyval(c, r[j]) for r in rows] for j, c in enumerate(t['cols'])}
                 t['rows'].extend([list(r) for r in rows])
@@ -335,7 +343,7 @@ def make_machine(raw):
                     rows = [[data.draw(Y.cell_strategy(c)) for c in t['cols']] for _ in range(nr)]
                     Y.fix_last_column([dict(cols=t['cols'], rows=rows)])
                     items.append(dict(table=ti, case=data.draw(st.sampled_from(['upper', 'lower'])),
-                                      form=data.draw(st.sampled_from(['dict', 'recarray'])), rows=rows))
+                                      form=data.draw(st.sampled_from(['dict', 'recarray', 'recarray-reordered'])), rows=rows))
                 return items
 
             @rule(data=st.data())
